@@ -275,7 +275,9 @@ func (g *pathGen) kw(w string) string {
 	return g.caseMix(w)
 }
 
-var regexPatterns = []string{"a", "^a.*b$", "[a-z]+", "(a|b)", "a{2,3}", `\d+`, "", ".", "a b", "(?i)x", `\\`, "[[:alpha:]]", "é", "日本", `\p{L}`}
+var regexPatterns = []string{"a", "^a.*b$", "[a-z]+", "(a|b)", "a{2,3}", `\d+`, "", ".", "a b", "(?i)x", `\\`, "[[:alpha:]]", "é", "日本", `\p{L}`,
+	// the characters every string-valued site of the printer has to escape (quote(), not %q)
+	"ring\a", "\U000f0001", "a\"b", "tab\there", "\x01", "\u200b", "\x7f", "\u0085", "\U0001f600", "\ufeff", "nl\nx", "\U0010ffff", "\ue000"}
 var badRegexPatterns = []string{"(", "[a", "a**", "a{2,1}", `\`, "(?P<n>", "[z-a]", `\8`, "*"}
 var flagForms = []string{"i", "s", "m", "q", "is", "ism", "iq", "qx", "xq", "sq", "ii", "imsq", ""}
 var badFlagForms = []string{"x", "ix", "z", "I", "i ", "isx"}
